@@ -1,0 +1,23 @@
+//go:build verif
+
+package x509
+
+import (
+	"crypto"
+
+	"github.com/zmap/zcrypto/x509/pkix"
+)
+
+// ZVC03SigningParamsForPublicKey exposes signingParamsForPublicKey
+// (verification hook, C03).
+func ZVC03SigningParamsForPublicKey(pub interface{}, requested SignatureAlgorithm) (crypto.Hash, pkix.AlgorithmIdentifier, error) {
+	return signingParamsForPublicKey(pub, requested)
+}
+
+// ZVC03RSAPSSParameters exposes rsaPSSParameters (verification hook, C03).
+func ZVC03RSAPSSParameters(h crypto.Hash) []byte {
+	return append([]byte{}, rsaPSSParameters(h).FullBytes...)
+}
+
+// ZVC03IsRSAPSS exposes SignatureAlgorithm.isRSAPSS (verification hook, C03).
+func ZVC03IsRSAPSS(a SignatureAlgorithm) bool { return a.isRSAPSS() }
